@@ -156,6 +156,48 @@ def integer_data(rng):
     return None
 
 
+def callers_arrays_and_warnings(rng):
+    """(a) the weights handed to ModeStatistics.from_global / from_particles are the caller's: read-only weights are accepted, no array is
+    rescaled in place, and a fit of a prefix view followed by a fit of the whole table gives the same result as fitting the whole table
+    first; (b) with warnings turned into errors the fits still return (data with per-coordinate widths up to 1e12 apart)"""
+    import warnings as _w
+    for d in (2, 3):
+        X = rng.standard_normal((120, d)) * 0.05 + 0.5
+        w = rng.uniform(0.2, 1.0, 120)
+        labels = (X[:, 0] > 0.5).astype(int)
+        for build, nm in ((lambda ww: ModeStatistics.from_global(X, ww), "from_global"), (lambda ww: ModeStatistics.from_particles(X, ww, labels), "from_particles")):
+            np.random.seed(5)
+            ref = build(w.copy())
+            ro = w.copy()
+            ro.setflags(write=False)
+            np.random.seed(5)
+            try:
+                got = build(ro)
+            except Exception as e:
+                return f"ModeStatistics.{nm} with read-only weights raised {type(e).__name__}: {e}"
+            if not np.allclose(got.means, ref.means) or not np.allclose(got.covariances, ref.covariances):
+                return f"ModeStatistics.{nm} with read-only weights differs from the fit with a writable copy"
+            mine = w.copy()
+            np.random.seed(5)
+            build(mine)
+            if not np.array_equal(mine, w):
+                return f"ModeStatistics.{nm} rescaled the caller's weight array in place (sum {float(w.sum()):.4g} -> {float(mine.sum()):.4g})"
+    for spread in ((1.0, 1e-8), (1e6, 1.0, 1e-6), (0.2, 1e-9)):
+        d = len(spread)
+        X = rng.standard_normal((90, d)) * np.asarray(spread) + 0.5
+        with _w.catch_warnings():
+            _w.simplefilter("error")
+            try:
+                m, S, nu = fit_mvstud(X)
+                np.random.seed(5)
+                ms = ModeStatistics.from_global(X, np.full(len(X), 1.0 / len(X)))
+            except Warning as e:
+                return f"with warnings turned into errors the Student-t fit of data with per-coordinate widths {spread} raises {type(e).__name__}: {str(e)[:160]}"
+            except Exception as e:
+                return f"with warnings turned into errors the Student-t fit of data with per-coordinate widths {spread} raises {type(e).__name__}: {str(e)[:160]}"
+    return None
+
+
 def trainer_uses_current_particles():
     """Trainer.run on consecutive iterations (cluster_every = 1, 2, 3): the mode statistics it returns are fitted to the particles of
     *that* iteration (location inside their bounding box), also on iterations off the clustering cadence."""
@@ -202,7 +244,8 @@ def main():
     np.random.seed(1)
     tried = 0
     for nm, fn in (("modes carry the fit", lambda: modes_carry_the_fit(rng)), ("trainer uses current particles", trainer_uses_current_particles),
-                   ("integer-typed data", lambda: integer_data(np.random.RandomState(19)))):
+                   ("integer-typed data", lambda: integer_data(np.random.RandomState(19))),
+                   ("caller's arrays / warnings as errors", lambda: callers_arrays_and_warnings(np.random.RandomState(23)))):
         tried += 1
         try:
             e = fn()
